@@ -134,7 +134,7 @@ def stale(cls):
         return None
 
 
-def in_child(fn, timeout=60):
+def in_child(fn, timeout=300):
     r, w = os.pipe()
     sys.stdout.flush()
     pid = os.fork()
@@ -385,7 +385,7 @@ def execute(mat, ctx):
                     "from mon.props import C06; print(json.dumps(C06.answer(%d, gen.class_by_name(%r), %r)))" % (
                         os.path.dirname(os.path.dirname(os.path.dirname(os.path.abspath(__file__)))), seed, n, probe_texts(seed, gen.class_by_name(n))))
             env = dict(os.environ, PYTHONHASHSEED="0", PYTHONWARNINGS="ignore")
-            p = subprocess.run([sys.executable, "-c", code], stdout=subprocess.PIPE, stderr=subprocess.PIPE, timeout=120, env=env)
+            p = subprocess.run([sys.executable, "-c", code], stdout=subprocess.PIPE, stderr=subprocess.PIPE, timeout=900, env=env)
             if p.returncode != 0:
                 raise RuntimeError("fresh interpreter failed: " + p.stderr.decode()[-500:])
             fresh = json.loads(p.stdout.decode().strip().splitlines()[-1])
